@@ -51,6 +51,44 @@ Definition swap_remove {A} (l : list A) (i : nat) : res (list A) :=
       end
   end.
 
+(* ---------------- the optimiser as a procedure that RECEIVES the cost function ----------------
+   argmin's Executor::run with NelderMead (track_fitting.rs:102-109, vertex_fitting.rs:76-83) is modelled as an
+   interaction tree: it asks the cost function for its value at a parameter vector and continues according to the
+   answer, finitely often (max_iters is configured), and ends with state.best_param -- or it fails by itself
+   (`Crash`: run() returned Err or argmin panicked, so `.unwrap()` at :108 panics).  Nothing else of argmin is modelled:
+   WHICH vectors it asks is the tree, a Section variable of the theorems.  By construction the cost function is called
+   only on the vectors asked along the path its own answers select, and a panic of the cost function is the panic of
+   the fit. *)
+Inductive strategy (F : Type) : Type :=
+| Done (best : option (list F))                 (* res.state.best_param *)
+| Crash                                         (* Executor::run() is Err / argmin panics *)
+| Ask (p : list F) (k : F -> strategy F).       (* problem.cost(&p)? *)
+Arguments Done {F} best.
+Arguments Crash {F}.
+Arguments Ask {F} p k.
+
+(* Executor::new(problem, solver).run().unwrap(): Problem::cost returns Ok(value) or panics; an Err would be turned into
+   a panic by the unwrap at :108 *)
+Fixpoint run_strategy {F} (c : list F -> res F) (t : strategy F) : res (option (list F)) :=
+  match t with
+  | Done b => Ok b
+  | Crash => Panic
+  | Ask p k => match c p with Ok y => run_strategy c (k y) | _ => Panic end
+  end.
+(* the parameter vectors the cost function is called on, in order (up to and including the first call that fails) *)
+Fixpoint asked {F} (c : list F -> res F) (t : strategy F) : list (list F) :=
+  match t with
+  | Done _ | Crash => []
+  | Ask p k => p :: match c p with Ok y => asked c (k y) | _ => [] end
+  end.
+(* what is ASSUMED of argmin (hypothesis N4 / V4 of C14): as long as the answers are `good` numbers (for the real code:
+   not NaN), every vector it asks has the dimension n of the simplex, it does not fail by itself, and best_param is a
+   vector it has asked before *)
+Inductive wf_strategy {F} (good : F -> Prop) (n : nat) : list (list F) -> strategy F -> Prop :=
+| wf_done : forall seen v, In v seen -> wf_strategy good n seen (Done (Some v))
+| wf_ask : forall seen p k, length p = n -> (forall y, good y -> wf_strategy good n (p :: seen) (k y)) ->
+           wf_strategy good n seen (Ask p k).
+
 Section Skeleton.
   Variable F : Type.                                   (* f64 *)
   Variable point : Type.                               (* SpacePoint *)
@@ -157,6 +195,11 @@ Section Skeleton.
           tr_t_inner := closest bp first;                                    (* :122 *)
           tr_t_outer := closest bp last |})).                                (* :123 *)
 
+  (* the initial simplex the fit hands to the optimiser (:40-95); fit_cluster_to_helix = this, then :97-124 *)
+  Definition fit_simplex (pts : list point) : res (list (list F)) :=
+    do '(first, middle, last) <- three_template_points pts;
+    initial_simplex (guess6 pts first middle last).
+
   (* ---------------- beamline_clusters / find_vertices (vertex_fitting.rs) ---------------- *)
   Variable T : Type.                                                         (* Track *)
   Variable teq : T -> T -> bool.                                             (* derived PartialEq *)
@@ -246,6 +289,18 @@ Section Skeleton.
       end;
     do remainder <- remove_all (match vtx with None => [] | Some v => map fst (v_tracks v) end) tracks;
     Ok (vtx, remainder).
+
+  (* the tracks and the mean z the vertex fit is run on (:31-51); find_vertices = this, then :52-128 *)
+  Definition vertex_best (tracks : list T) : res (option (list T * F)) :=
+    let primary := filter is_primary tracks in
+    do bc <- beamline_clusters primary;
+    let cands := max_set_len (filter (fun c => (1 <? length (fst c))%nat) bc) in
+    match cands with
+    | [] => Ok None
+    | c :: t =>
+        do b <- max_by_res (fun a b => unwrap (fcmp (sumF (map t_rad (fst a))) (sumF (map t_rad (fst b))))) c t;
+        Ok (Some b)
+    end.
 End Skeleton.
 
 (* ---------------- binary64 instance of three_template_points (differential tag `fit3`) ---------------- *)
@@ -262,15 +317,36 @@ Definition fit3_outcome (L : libm) (pts : list spoint) : N :=
   if (length pts <? 3)%nat then 2%N
   else match three_template_prim L pts with Ok _ => 1%N | Err _ => 0%N | Panic => 2%N end.
 
-(* ---------------- OPEN FINDING `tinyphi` (C14): recogniser of the class and the witness ---------------- *)
-(* the class: a cluster of at least 3 points, radii in [0.05, 0.25] m, every |phi| <= 1e-160 rad (so the cluster is
-   straight to better than 1e-155 m) and not all phi equal to zero.  On this class hypothesis (N3) of
-   C14_fit_skeleton_total is FALSE of the implementation: unless the points are exactly collinear the initial circle has
-   a radius > 1e154 m and closest_t evaluates 4 pi^2 r R / h^2 = inf / inf. *)
-Definition tinyphi_class (pts : list spoint) : bool :=
-  (3 <=? length pts)%nat
-  && forallb (fun p => (abs (sp_phi p) <=? 0x1p-532) && (0x1.999999999999ap-5 <=? sp_r p) && (sp_r p <=? 0.25)) pts
-  && negb (forallb (fun p => sp_phi p =? 0) pts).
+(* ---------------- OPEN FINDING `tinyphi` (C14, F9): recogniser of the class and the witness ---------------- *)
+(* The class, as measured on the implementation (harness/phys/src/c14.rs, comment at R_CLASS): the three template points
+   are not collinear in the sense of the code (three_template_points returns Ok) and the circle through them -- the
+   initial guess of the fit -- has a radius R >= 1e136 m.  On this class the numeric hypothesis (N3) of
+   C14_fit_skeleton_total is FALSE of the implementation for almost every member with R >= 1e138 m: the optimiser is
+   handed, or wanders to, parameter vectors for which closest_t evaluates inf/inf or inf * 0.
+   The definition performs the same binary64 operations in the same order as the harness recogniser
+   `c14::tinyphi_class` (differential tag `cls14`):  R = |fm| |ml| |lf| / (2 |cross|), cross the exact doubled area
+   (Dekker's error-free product from plain operations, no fma), the test is  |fm| |ml| |lf| >= 2 * 1e136 * |cross|. *)
+Definition R_CLASS : float := 0x1.b843422e3a84dp+451.      (* 1e136 *)
+Definition vsplit (x : float) : float * float :=
+  let c := 134217729 * x in let hi := c - (c - x) in (hi, x - hi).
+Definition two_prod_err (a b p : float) : float :=
+  let '(ah, al) := vsplit a in let '(bh, bl) := vsplit b in
+  al * bl - (((p - ah * bh) - al * bh) - ah * bl).
+Definition tinyphi_class (L : libm) (pts : list spoint) : bool :=
+  if (length pts <? 3)%nat then false
+  else match three_template_prim L pts with
+  | Ok (f, m, l) =>
+      let '(fx, fy) := (sp_x L f, sp_y L f) in
+      let '(mx, my) := (sp_x L m, sp_y L m) in
+      let '(lx, ly) := (sp_x L l, sp_y L l) in
+      let a := lx - fx in let b := my - fy in let c := mx - fx in let d := ly - fy in
+      let p1 := a * b in let p2 := c * d in
+      let cross := abs ((p1 - p2) + (two_prod_err a b p1 - two_prod_err c d p2)) in
+      let side u v := sqrt (u * u + v * v) in
+      let num := side c b * side (lx - mx) (ly - my) * side a d in
+      2 * R_CLASS * cross <=? num
+  | _ => false
+  end.
 (* the corpus witness corpus/C14/tinyphi.case: (r, phi, z) = (0.11, 1e-165, 0), (0.15, -2e-165, 0.1), (0.19, 3.5e-165, 0.2) *)
 Definition tinyphi_witness : list spoint :=
   [ mk_spoint 0x1.c28f5c28f5c29p-4 0x1.d7becc2f23ac2p-549 0;
